@@ -13,6 +13,7 @@ import Cctz.Model.Loader
 import Cctz.Model.Format
 import Cctz.Model.Parse
 import Cctz.Model.TableCheck
+import Cctz.Model.TameCheck
 
 open Cctz
 
@@ -258,7 +259,7 @@ def zoneOp (st : DState) (toks : List String) : Option (DState × String) :=
       let e ← st.find id
       let z := e.zone
       let b (x : Bool) : String := if x then "1" else "0"
-      some (st, s!"wf={b (TableCheck.tableWFb z)} sorted={b (TableCheck.civilSortedb z)} cols={b (TableCheck.civilColsb z)} sep={b (TableCheck.separatedb z)} inrange={b (TableCheck.timesInRangeb z)} room={b (TableCheck.firstEntryRoomb z)} tame={b (TableCheck.tameb z)}")
+      some (st, s!"wf={b (TableCheck.tableWFb z)} sorted={b (TableCheck.civilSortedb z)} cols={b (TableCheck.civilColsb z)} sep={b (TableCheck.separatedb z)} inrange={b (TableCheck.timesInRangeb z)} room={b (TableCheck.firstEntryRoomb z)} tame={b (TameCheck.tameFullb z)}")
   | ["reload", id] =>
       -- the cache: a name loaded before is answered from the map, the data source is not consulted
       match st.find id with
